@@ -7,10 +7,16 @@
    about).
 
    All theorems are unbounded: no bound on the number of nodes, on the node
-   labels, or on the length of the edge list. *)
+   labels, or on the length of the edge list (and, in the second half, on the
+   number of samples of a batch or on which edges have matches in a sample).
+
+   First half: the order `toposort_edges` computes (model Toposort.v).
+   Second half: the order USED FOR GROUPING in every sample of a batch
+   (model Walk.v: group_instances_batch / group_instances_sample /
+   the loop of assign_connections_to_instances). *)
 From Coq Require Import List Arith Bool Permutation.
 Import ListNotations.
-From SV Require Import C17.Toposort C17.Lemmas.
+From SV Require Import C17.Toposort C17.Lemmas C17.Walk C17.WalkLemmas.
 
 (* smoke example: the docstring case of the test-suite *)
 Example ex_toposort_smoke :
@@ -105,3 +111,142 @@ Corollary toposort_dst_fresh : forall es r out, arborescence es r -> toposort es
   a <> v /\ b <> v.
 Proof. exact toposort_dst_fresh_proof. Qed.
 Print Assumptions toposort_dst_fresh.
+
+(* ======================================================================== *)
+(* The edge order USED FOR GROUPING, per sample of a batch (model: Walk.v)  *)
+(* ======================================================================== *)
+
+(* the clause for one sample, restated.  `has j = true`: edge j has at least
+   one accepted match in the sample.  A consumed edge whose source is not the
+   root comes strictly after the edge leading into its source whenever that
+   edge has a match in the sample. *)
+Lemma parent_before_child_among_def : forall es w r has,
+  parent_before_child_among es w r has =
+  (forall k i u v, nth_error w k = Some i -> nth_error es i = Some (u,v) -> u <> r ->
+   forall j p, nth_error es j = Some (p,u) -> has j = true ->
+   exists k', k' < k /\ nth_error w k' = Some j).
+Proof. exact parent_before_child_among_unfold. Qed.
+Print Assumptions parent_before_child_among_def.
+
+(* a batch of four samples on the docstring skeleton: a non-leaf edge without
+   match, everything matched, an empty frame, two leaf edges only *)
+Example ex_walk_batch :
+  walk_batch [(2,0);(3,2);(3,1);(2,4);(1,5)] [[0;2;3;4]; [0;1;2;3;4]; []; [3;0]] =
+  Some [[2;0;3;4]; [1;2;0;3;4]; []; [0;3]].
+Proof. exact walk_batch_example. Qed.
+
+(* the clause is not true of an arbitrary order (child edge 0 before its
+   present parent edge 1; a present edge left out) *)
+Example ex_walk_ok_rejects :
+  walk_ok [(2,0);(3,2);(3,1);(2,4);(1,5)] [0;1] [0;1] = false /\
+  walk_ok [(2,0);(3,2);(3,1);(2,4);(1,5)] [0;1] [1;0] = true /\
+  walk_ok [(2,0);(3,2);(3,1);(2,4);(1,5)] [0;1] [1] = false.
+Proof. exact walk_ok_rejects_child_first. Qed.
+
+(* the model uses that `connections = {}` is a NEW dict for every sample: keys
+   left over in another order would not give the sorted order *)
+Example ex_stale_dict_changes_order :
+  fold_left (fun keys i => dict_set i keys) [1;2;0;3;4] [0;3] = [0;3;1;2;4].
+Proof. exact stale_dict_changes_order. Qed.
+
+(* keying the dict by edge index is keying it by EdgeType(src, dst): in a
+   tree-shaped skeleton two different indices never carry the same edge type *)
+Theorem tree_edge_types_distinct : forall es r i j e, arborescence es r ->
+  nth_error es i = Some e -> nth_error es j = Some e -> i = j.
+Proof. exact tree_edge_types_distinct_proof. Qed.
+Print Assumptions tree_edge_types_distinct.
+
+(* For every tree-shaped skeleton and every batch, the order in which the
+   connections of a sample are consumed is sorted_edge_inds (= toposort es)
+   restricted to the edges that have a match in THAT sample; no other sample of
+   the batch has any influence on it. *)
+Theorem walk_batch_is_filtered_toposort : forall es r samples, arborescence es r ->
+  exists out, toposort es = Some out /\
+    walk_batch es samples =
+    Some (map (fun present => filter (fun i => memb i present) out) samples).
+Proof. exact walk_batch_filtered_proof. Qed.
+Print Assumptions walk_batch_is_filtered_toposort.
+
+(* every edge type that has connections in the sample is consumed exactly
+   once, and nothing else is *)
+Theorem walk_sample_complete : forall es r samples ws b present w, arborescence es r ->
+  walk_batch es samples = Some ws -> nth_error samples b = Some present ->
+  nth_error ws b = Some w ->
+  NoDup w /\ (forall i, In i w <-> In i present /\ i < length es).
+Proof. exact walk_sample_complete_proof. Qed.
+Print Assumptions walk_sample_complete.
+
+(* ... and an edge is consumed only after the edge leading into its source
+   node, whenever that edge has a match in the sample *)
+Theorem walk_sample_parent_before_child : forall es r samples ws b present w,
+  arborescence es r ->
+  walk_batch es samples = Some ws -> nth_error samples b = Some present ->
+  nth_error ws b = Some w ->
+  parent_before_child_among es w r (fun i => memb i present).
+Proof. exact walk_sample_parent_before_child_proof. Qed.
+Print Assumptions walk_sample_parent_before_child.
+
+(* a sample in which every edge has a match is walked in the full order of the
+   main theorem: every edge exactly once, parent before child *)
+Theorem walk_sample_full : forall es r samples ws b present w, arborescence es r ->
+  walk_batch es samples = Some ws -> nth_error samples b = Some present ->
+  nth_error ws b = Some w ->
+  (forall i, i < length es -> In i present) ->
+  toposort es = Some w /\ Permutation w (seq 0 (length es)) /\ parent_before_child es w r.
+Proof. exact walk_sample_full_proof. Qed.
+Print Assumptions walk_sample_full.
+
+(* the general fact behind it: restricting ANY parent-before-child order to
+   ANY set of edges keeps parent-before-child for the edges whose parent edge
+   is in the set *)
+Theorem filter_keeps_parent_before_child : forall es out r has,
+  NoDup (map snd es) -> parent_before_child es out r ->
+  parent_before_child_among es (filter has out) r has.
+Proof. exact filter_keeps_parent_before_child_proof. Qed.
+Print Assumptions filter_keeps_parent_before_child.
+
+(* "Hence no body part is left ungrouped": when an edge (u,v) is consumed, no
+   edge consumed earlier in that sample has v as its source or destination, so
+   assign_connections_to_instances only meets "neither peak assigned" or "source
+   assigned, destination not" (C08 proves from exactly this hypothesis that the
+   instances are the connected components of the accepted matches). *)
+Theorem walk_sample_dst_fresh : forall es r samples ws b present w, arborescence es r ->
+  walk_batch es samples = Some ws -> nth_error samples b = Some present ->
+  nth_error ws b = Some w ->
+  forall k i u v, nth_error w k = Some i -> nth_error es i = Some (u,v) ->
+  forall k' j a c, k' < k -> nth_error w k' = Some j -> nth_error es j = Some (a,c) ->
+  a <> v /\ c <> v.
+Proof. exact walk_sample_dst_fresh_proof. Qed.
+Print Assumptions walk_sample_dst_fresh.
+
+(* what holds when the parent edge has NO match in the sample: then no consumed
+   edge, and no accepted connection of the sample at all, leads into a part of
+   type u.  The part u of that animal has no parent in this sample because of
+   what was detected and matched in it, in whatever order the connections are
+   looked at, not because of the way the skeleton was written down. *)
+Theorem walk_sample_parent_absent : forall es r samples ws b present w,
+  arborescence es r ->
+  walk_batch es samples = Some ws -> nth_error samples b = Some present ->
+  nth_error ws b = Some w ->
+  forall k i u v, nth_error w k = Some i -> nth_error es i = Some (u,v) ->
+  forall j p, nth_error es j = Some (p,u) -> ~ In j present ->
+  (forall k' j' a, nth_error w k' = Some j' -> nth_error es j' = Some (a,u) -> False) /\
+  (forall j' a, In j' present -> nth_error es j' = Some (a,u) -> False).
+Proof. exact walk_sample_parent_absent_proof. Qed.
+Print Assumptions walk_sample_parent_absent.
+
+(* the executable statement walk_ok (Walk.v; evaluated by the harness on the
+   order observed in the implementation) means the Prop-level clause, and the
+   model's own order passes it *)
+Theorem walk_ok_sound : forall es present w r, NoDup (map snd es) ->
+  walk_ok es present w = true ->
+  NoDup w /\ (forall i, In i w <-> In i present /\ i < length es) /\
+  parent_before_child_among es w r (fun i => memb i present).
+Proof. exact walk_ok_sound_proof. Qed.
+Print Assumptions walk_ok_sound.
+
+Theorem walk_batch_ok : forall es r samples ws b present w, arborescence es r ->
+  walk_batch es samples = Some ws -> nth_error samples b = Some present ->
+  nth_error ws b = Some w -> walk_ok es present w = true.
+Proof. exact walk_batch_ok_proof. Qed.
+Print Assumptions walk_batch_ok.
